@@ -632,7 +632,13 @@ class Daemon(object):
         except Exception:
             # the exception object couldn't be serialized, use a generic PyroError instead
             xt, xv, tb = sys.exc_info()
-            msg = "Error serializing exception: %s. Original exception: %s: %s" % (str(xv), type(exc_value), str(exc_value))
+
+            def text(x):    # (an exception that can't be serialized may well be one that can't be printed either)
+                try:
+                    return str(x)
+                except Exception:
+                    return "<unprintable %s>" % type(x).__name__
+            msg = "Error serializing exception: %s. Original exception: %s: %s" % (text(xv), type(exc_value), text(exc_value))
             exc_value = errors.PyroError(msg)
             exc_value._pyroTraceback = tbinfo
             data = serializer.dumps(exc_value)
